@@ -353,6 +353,15 @@ func childReexec(args []string) {
 			out.Error = err.Error()
 		} else {
 			H := st.Store.Height()
+			rawH := H
+			// the recovered node may hold one block more than it has applied (a run that ended between
+			// SaveBlock and the application's commit: the node applies that block when consensus
+			// starts): re-execute what the node's own recovery reports as its height
+			if len(args) > 4 {
+				if lim, err := strconv.ParseInt(args[4], 10, 64); err == nil && lim > 0 && lim < H {
+					H = lim
+				}
+			}
 			var vr *valsetReplica
 			if st.State != nil && st.State.GenesisDoc != nil {
 				vr = newValsetReplica(st.State.GenesisDoc) // the real plugin behind the 0xfe precompile, as in the node
@@ -378,7 +387,7 @@ func childReexec(args []string) {
 				cr := c.(gtypes.CommitResult)
 				out.App = append(out.App, hex.EncodeToString(cr.AppHash))
 				out.Rcpt = append(out.Rcpt, hex.EncodeToString(cr.ReceiptsHash))
-				if h < H {
+				if h < rawH {
 					next := st.Store.LoadBlock(h + 1)
 					if !bytes.Equal(next.AppHash, cr.AppHash) || !bytes.Equal(next.ReceiptsHash, cr.ReceiptsHash) {
 						out.Mismatch = fmt.Sprintf("block %d records AppHash %X / ReceiptsHash %X for height %d, re-execution gives %X / %X", h+1, next.AppHash, next.ReceiptsHash, h, cr.AppHash, cr.ReceiptsHash)
@@ -726,7 +735,7 @@ func runPoint(run *lib.Run, base string, t *template, pt point, idx int) {
 	run.Count("exactly_once_checks", 1)
 	// 5. re-execution on a fresh application
 	var re reexecOut
-	rr := runProc(dir, 3*time.Minute, []string{"VERIF_DISARMED=1"}, "reexec", rt, ps, filepath.Join(dir, "reexec.json"), filepath.Join(dir, "fresh"))
+	rr := runProc(dir, 3*time.Minute, []string{"VERIF_DISARMED=1"}, "reexec", rt, ps, filepath.Join(dir, "reexec.json"), filepath.Join(dir, "fresh"), strconv.FormatInt(fin.StoreHeight, 10))
 	if !readJSON(filepath.Join(dir, "reexec.json"), &re) {
 		run.Violation("re-execution-crashed:"+panicSiteRe(rr.out), fmt.Sprintf("crash before write %d (%s): re-executing the recovered chain crashed: %s", pt.k, site, tail(rr.out, 800)), witness(nil))
 		return
